@@ -367,6 +367,21 @@ func (p *Prog) runtimeHashRule(r *Report, bh *ssa.Function) {
 			}
 		}
 	})
+	// RuleHash itself must honour runtime=true: under that assumption only returns of ruleHash(…, runtime) are reachable
+	if inner := p.Fn("build", "ruleHash"); inner != nil && len(ruleHashFn.Params) >= 3 {
+		rtParam := ssa.Value(ruleHashFn.Params[2])
+		badRet := 0
+		for _, ret := range returnsOf(ruleHashFn) {
+			okv := false
+			if c, ok := ret.Results[0].(*ssa.Call); ok && callsFn(c, inner) && len(c.Call.Args) >= 3 && c.Call.Args[2] == rtParam {
+				okv = true
+			}
+			if !okv && existsPathAssuming(ruleHashFn, nil, ret, nil, map[ssa.Value]bool{rtParam: true}) {
+				badRet++
+			}
+		}
+		r.check(badRet == 0, rule, "RuleHash(runtime=true) never returns the memoised build hash", p.pos(ruleHashFn.Pos()), fnName(ruleHashFn), "with runtime==true every reachable return is ruleHash(…, runtime)", "with runtime==true RuleHash can return something other than ruleHash(…, runtime) (e.g. the memoised non-runtime hash): runtime attributes would not invalidate test results or change detection")
+	}
 	r.check(pre && post, rule, "RuleHash(runtime=true) pre- and post-build", p.pos(bh.Pos()), fnName(bh), "both calls present with constant runtime=true", "RuntimeHash does not include RuleHash(runtime=true) for both the pre- and post-build rule: test command/data/test outputs would not invalidate results")
 	// result derives from those calls and the config hash
 	var retVals []ssa.Value
